@@ -104,6 +104,34 @@ func runC47(c *Ctx) {
 			w := f.search(searchSpec{startEdges: edgeList(into), avoid: reset, target: storeState})
 			c.Check(w == nil && len(into) > 0, "window-reset/"+st, "a transition to HalfOpen or Closed resets the failure window before the new state is published", c.P.Pos(tr.Decl.Pos()), f.describe(w))
 		}
+		// check-then-act: the callers decide a transition outside the mutex, so transitionTo itself must validate
+		// the source state inside its critical section
+		cur := func(e ast.Expr) bool { o := objOf(info, e); return o != nil && o.Name() == "current" }
+		for _, pr := range []struct{ target, from string }{{"HalfOpen", "Open"}, {"Closed", "HalfOpen"}} {
+			pr := pr
+			into := f.FactEdges(func(cm cmp) bool {
+				k, isK := objOfConst(info, cm.R)
+				o := objOf(info, cm.L)
+				return cm.Op == token.EQL && isK && k.Name() == pr.target && o != nil && o.Name() == "target"
+			})
+			from := f.FactEdges(func(cm cmp) bool {
+				k, isK := objOfConst(info, cm.R)
+				return cm.Op == token.EQL && isK && k.Name() == pr.from && cur(cm.L)
+			})
+			w := f.search(searchSpec{startEdges: edgeList(into), avoidEdges: from, target: storeState})
+			c.Check(w == nil && len(into) > 0 && len(from) > 0, "source-validated/"+pr.target+"←"+pr.from, "a transition to "+pr.target+" is applied only when, inside the critical section, the current state is "+pr.from+" (the caller's decision was taken outside the lock and may be stale)", c.P.Pos(tr.Decl.Pos()), f.describe(w))
+		}
+		intoHalf := f.FactEdges(func(cm cmp) bool {
+			k, isK := objOfConst(info, cm.R)
+			o := objOf(info, cm.L)
+			return cm.Op == token.EQL && isK && k.Name() == "HalfOpen" && o != nil && o.Name() == "target"
+		})
+		dueInside := f.FactEdges(func(cm cmp) bool {
+			call, ok := ast.Unparen(cm.R).(*ast.CallExpr)
+			return cm.Op == token.GEQ && ok && f.CallOnField(openUntil, "Load")(call)
+		})
+		w = f.search(searchSpec{startEdges: edgeList(intoHalf), avoidEdges: dueInside, target: storeState})
+		c.Check(w == nil && len(dueInside) > 0, "source-validated/HalfOpen-deadline", "the re-probe deadline is re-checked inside the critical section before entering HalfOpen", c.P.Pos(tr.Decl.Pos()), f.describe(w))
 		same := f.EdgesWhere(func(cond ast.Expr) (bool, bool) {
 			cm, ok := asCmp(cond, true)
 			if ok && cm.Op == token.EQL {
